@@ -279,9 +279,26 @@ def _encoder(ctx, b):
         from ..affine import affine
         ln = w[1][1]
         a = None
+        def is_len(x):
+            return x[0] == "call" and str(x[1]).endswith("::len")
+
+        def is_count(x):
+            # n = number of servers, or min(number of servers, k) with k <= 127 (what one option can carry)
+            if is_len(x):
+                return True
+            if x[0] == "call" and str(x[1]).endswith("cmp::min") and len(x[2]) == 2:
+                p, q = norm(x[2][0]), norm(x[2][1])
+                return any(is_len(u) and v[0] == "const" and isinstance(v[1], int) and 0 < v[1] <= 127 for u, v in ((p, q), (q, p)))
+            return False
         for y in subterms(ln):
-            a = a or affine(y, lambda x: x[0] == "call" and str(x[1]).endswith("::len"))
-        ctx.check(a is not None and list(a[0].values()) == [2] and a[1] == 1, "R3", "option:Rdnss:len=1+2n", ctx.where(b), show(ln)[:80])
+            a = a or affine(y, is_count)
+        okk = a is not None and list(a[0].values()) == [2] and a[1] == 1
+        if okk and not is_len(list(a[0])[0]):
+            # a capped count: exactly that many servers must be written
+            cap = list(a[0])[0]
+            takes = [norm(x) for bb, tm in b.calls() if (callee_name(tm) or "").endswith("::take") and "Iterator" in (callee_name(tm) or "") for x in T.call_args(bb)[1:2]]
+            okk = cap in takes
+        ctx.check(okk, "R3", "option:Rdnss:len=1+2n", ctx.where(b), show(ln)[:80])
     # DNSSL / captive portal: zero padding loops to a multiple of 8
     for name, k in (("DnsSearchList", 8), ("CaptivePortal", 8)):
         blocks = arms.get(name, set())
